@@ -269,12 +269,13 @@ MkVariant(kind, a, k, plan, desc) ==
         bs == TSer(ToTreeX(kind, a, x), StyleOf(k))
         r == TParse(bs, 1)
     IN [desc |-> desc, sty |-> k, bytes |-> bs, mayReject |-> FALSE,
-        self |-> r.ok /\ r.p = Len(bs) + 1 /\ Abs(kind, r.v) = a]
+        self |-> /\ r.ok /\ r.p = Len(bs) + 1 /\ Abs(kind, r.v) = a
+                 /\ (plan = <<>> => TypeErrs(kind, r.v) = {})]      \* the spec's own trees conform to the IDL
 CaseHash(a) == Len(ToJson(a)) % 9973
 StdVariants(kind, a, kinds) ==
     LET h == CaseHash(a)
         ks == IF Quick THEN <<0, 63, (h * 7 + 1) % 64, (h * 13 + 5) % 64>>
-              ELSE <<0, 63>> \o [i \in 1..10 |-> (h + (i * 19)) % 64]
+              ELSE <<0, 63>> \o [i \in 1..4 |-> (h + (i * 19)) % 64]
     IN [i \in 1..Len(ks) |-> MkVariant(kind, a, ks[i],
                                 IF i = 3 THEN RealPlan ELSE IF i >= 4 THEN MixPlan(h + i, kinds) ELSE <<>>,
                                 IF i = 3 THEN "real" ELSE IF i >= 4 THEN "mix" ELSE "plain")]
